@@ -55,6 +55,11 @@ def valueTag (mac : Mac) (secret key : Bytes) (ver : Nat) (val : Bytes) : Bytes 
 def clientNonce : Bytes := [0x01]
 def serverNonce : Bytes := [0x02]
 
+/-- The acceptance test of every verifying entry point: the received tag and the expected tag are
+    compared as **byte lists** (`received_hmac == hmac` on `Vec<u8>`/slices in the Rust code), so a
+    received tag of another length — truncated, empty, extended — is never accepted. -/
+def accept (received expected : Bytes) : Bool := received == expected
+
 /-- `ExternalPersistHelper` -/
 structure Helper where
   secret : Bytes
@@ -67,7 +72,7 @@ def newNonce (h : Helper) (n : Bytes) : Helper := { h with lastNonce := n }
 def clientHmac (mac : Mac) (h : Helper) (rs : List KVRec) : Bytes := sharedTag mac h.secret clientNonce rs
 def serverHmac (mac : Mac) (h : Helper) (rs : List KVRec) : Bytes := sharedTag mac h.secret serverNonce rs
 def checkHmac (mac : Mac) (h : Helper) (rs : List KVRec) (received : Bytes) : Bool :=
-  received == sharedTag mac h.secret h.lastNonce rs
+  accept received (sharedTag mac h.secret h.lastNonce rs)
 end Helper
 
 /-- `append_hmac_to_value` -/
@@ -80,6 +85,6 @@ def processValue (mac : Mac) (secret key : Bytes) (ver : Nat) (stored : Bytes) :
   else
     let v := stored.take (stored.length - 32)
     let t := stored.drop (stored.length - 32)
-    if valueTag mac secret key ver v = t then some v else none
+    if accept t (valueTag mac secret key ver v) then some v else none
 
 end VlsModel.Hmac
